@@ -783,13 +783,14 @@ impl SeqSubject for LayeredSubject {
 
 pub fn run(tier: Tier, seed: u64) -> i32 {
     let rep = Report::new("C07", tier, seed, Level::FaultEnumeration);
-    rep.set_rule("artifact part: per artifact every single-bit flip and every byte substitution (all 255 values for small artifacts, boundary values otherwise), every suffix deletion, 1-byte infix deletion and 1-byte insertion (00/FF) at every position (grid for regions > 512 bytes in quick) inside the protected region; cache part: every history ≤ depth d over put_validated / mismatching put / get_validated / corrupt-backing-file ops / reopen on ContentAddressedCache<DiskCache>; every mutant differs from the original, so distinct_nontrivial = cases");
+    rep.set_rule("artifact part: per artifact every single-bit flip and every byte substitution (all 255 values for small artifacts, boundary values otherwise), every suffix deletion, 1-byte infix deletion and 1-byte insertion (00/FF) at every position inside the protected region; cache part: every history ≤ depth d over put_validated / mismatching put / get_validated / corrupt-backing-file ops / reopen on ContentAddressedCache<DiskCache>; every mutant differs from the original, so distinct_nontrivial = cases");
     rep.assume("accept(mutant) ⇒ logical(mutant) = logical(original); a mutation that the parser normalises away without changing the value is not a violation; a panic is treated as 'not accepted' here (C02 judges panics)");
     rep.assume("protected regions: encoding pages (MD5 in the page index), archive-index footer fields + footer hash, whole LRU file, update-entry bytes 0..23 (guard + hashed range), .idx guarded blocks: stored Jenkins hash + 16-byte header block, stored Jenkins hash + sorted entry block (the block_size words are outside the hashes), local header 30 bytes, V1 MIME message before the Checksum line");
-    run_artifacts(&rep, tier);
-    let st = explore(&CacheSubject, &SeqBounds::depth(tier.pick(4, 5)).with_budget(tier.pick(30, 600)), &rep);
+    // (the full artifact part and depth 5 take seconds: the quick tier runs them too)
+    run_artifacts(&rep, Tier::Thorough);
+    let st = explore(&CacheSubject, &SeqBounds::depth(tier.pick(5, 6)).with_budget(tier.pick(30, 600)), &rep);
     rep.extra("cache_part", json!({"depth_completed": st.completed_depth, "histories": st.histories, "violating": st.violations}));
-    let st2 = explore(&LayeredSubject, &SeqBounds::depth(tier.pick(4, 5)).with_budget(tier.pick(30, 600)), &rep);
+    let st2 = explore(&LayeredSubject, &SeqBounds::depth(tier.pick(5, 6)).with_budget(tier.pick(30, 600)), &rep);
     rep.extra("multi_layer_part", json!({"depth_completed": st2.completed_depth, "histories": st2.histories, "violating": st2.violations}));
     rep.finish()
 }
